@@ -24,6 +24,8 @@ type Op struct {
 type Workload struct {
 	SegSize int  `json:"seg"`
 	Ops     []Op `json:"ops"`
+	// Retry: a StoreLogs that returns an error is retried once with the same entries (as raft would).
+	Retry bool `json:"retry,omitempty"`
 }
 
 // Runner executes a workload step by step; Mark is called around every API call.
@@ -89,7 +91,12 @@ func (r *Runner) Run(wl Workload) error {
 				logs = append(logs, kit.EntrySpec{DataLen: sz, Seed: uint8(step + j)}.Make(start+uint64(j), r.gen))
 			}
 			if err := r.call(step, "StoreLogs", func() error { return r.W.StoreLogs(logs) }); err != nil {
-				return fmt.Errorf("step %d StoreLogs: %w", step, err)
+				if !wl.Retry {
+					return fmt.Errorf("step %d StoreLogs: %w", step, err)
+				}
+				if err2 := r.call(step, "StoreLogs", func() error { return r.W.StoreLogs(logs) }); err2 != nil {
+					return fmt.Errorf("step %d StoreLogs failed (%v) and its retry too: %w", step, err, err2)
+				}
 			}
 			r.M.Append(logs)
 			// wait for the background rotation inside its own marked call
